@@ -1536,6 +1536,11 @@ impl ProtocolState {
             return None;
         }
 
+        // a partially-encoded operation can make progress as soon as the last write has completed
+        if self.current_operation.is_some() {
+            return Some(self.current_time);
+        }
+
         if !self.high_priority_operation_queue.is_empty() {
             return Some(self.current_time);
         }
